@@ -84,8 +84,8 @@ def check(ctx):
                     return
                 nb = T.subst(before[0][0]['n'], m)
                 na = T.subst(after[0][0]['n'], m)
-                if not (isinstance(nb, tuple) and nb[0] == '*' and isinstance(na, tuple) and na[0] == '*'):
-                    raise AnalysisBroken('discard amount is not a product usage * share')
+                nb = ('*',) + usage_share(nb, (r, W))
+                na = ('*',) + usage_share(na, (r, W))
                 if nb[1] != na[1]:
                     ctx.violation('R2.usage_same', where, 'the two discards use different per-call '
                                   'usage factors', {'before': T.pretty(nb[1])[:400],
